@@ -258,6 +258,18 @@ func c08NilGuards(r *core.Report, fns []*core.Func) {
 			if !ok {
 				continue
 			}
+			// out := newRequest(...): a constructor of the package that sets a field on each of its success paths sets it here
+			if len(as.Rhs) == 1 {
+				if cc, isC := core.Unparen(as.Rhs[0]).(*ast.CallExpr); isC {
+					if fo := core.Callee(info, cc); fo != nil {
+						if ctor := p.ByObj[fo.Origin()]; ctor != nil && ctor.Body != nil && ctor.Pkg == f.Pkg && ctor != f {
+							for _, path := range ctorAlwaysSets(p, ctor) {
+								fields[path] = append(fields[path], n)
+							}
+						}
+					}
+				}
+			}
 			for i, l := range as.Lhs {
 				sel, ok := core.Unparen(l).(*ast.SelectorExpr)
 				if !ok || !isOptionalReqField(info, sel) || i >= len(as.Rhs) {
@@ -968,4 +980,46 @@ func hasPrefixGuard(p *core.Prog, f *core.Func, s boundsSite) bool {
 		}
 	}
 	return false
+}
+
+// ctorAlwaysSets: the optional request fields (by selector path) that the function assigns a non-nil pointer (&v) on
+// every path to each of its returns.
+func ctorAlwaysSets(p *core.Prog, ctor *core.Func) []string {
+	g := p.Graph(ctor)
+	info := ctor.Pkg.TypesInfo
+	fields := map[string]map[*core.GNode]bool{}
+	for _, n := range stmtNodes(g) {
+		as, ok := n.Ast.(*ast.AssignStmt)
+		if !ok {
+			continue
+		}
+		for i, l := range as.Lhs {
+			sel, ok := core.Unparen(l).(*ast.SelectorExpr)
+			if !ok || !isOptionalReqField(info, sel) || i >= len(as.Rhs) {
+				continue
+			}
+			if u, ok := core.Unparen(as.Rhs[i]).(*ast.UnaryExpr); !ok || u.Op != token.AND {
+				continue
+			}
+			path := selectorFieldPath(sel)
+			if fields[path] == nil {
+				fields[path] = map[*core.GNode]bool{}
+			}
+			fields[path][n] = true
+		}
+	}
+	var out []string
+	for path, set := range fields {
+		all := len(g.Returns()) > 0
+		for _, rn := range g.Returns() {
+			if g.PathAvoiding(g.Entry, func(x *core.GNode) bool { return x == rn }, func(x *core.GNode) bool { return set[x] }) != nil {
+				all = false
+			}
+		}
+		if all {
+			out = append(out, path)
+		}
+	}
+	sort.Strings(out)
+	return out
 }
